@@ -1127,15 +1127,15 @@ pub fn items(prop: &str, tier: Tier) -> Vec<Item> {
                             continue; // 8 million instrumented closure calls take ~30 s: thorough tier only
                         }
                         // long enough for the workers spawned after the first lag period to obtain elements
-                        let n = if quiet { 10 * c + 7 } else { 16 * c + 7 };
+                        let n = if quiet { 10 * c + 7 } else { 32 * c + 7 };
                         let mut cs = par(case(Src::SRange, 0, ch, t), w, CsSet::Exact(c));
                         cs.input = (0..n).map(|i| i as u8).collect();
                         cs.quiet = quiet;
                         out.push(item(cs.clone(), Plan::base_rr(), CK_EXACT));
                         out.push(item(cs.clone(), Plan::base_rr().with_slow0(2), CK_EXACT));
                         if !quiet {
-                            out.push(item(cs.clone(), Plan::db(1), CK_EXACT));
                             out.push(item(cs.clone(), Plan::base_np(), CK_EXACT));
+                            out.push(item(cs.clone(), Plan::base_rr().with_slow0(3), CK_EXACT));
                         }
                     }
                 }
